@@ -7,6 +7,7 @@
 //! and the outcome per front end, so that the driver can run the builder model on the same rows (C01 tie) and decide
 //! C04 per case.  Harness fidelity (DESIGN.md 2.3): `record(SVal(record(v))) == record(v)` for every value.
 use crate::dump;
+use crate::dynde;
 use crate::gen_schema;
 use crate::outcome;
 use crate::randde;
@@ -207,6 +208,53 @@ fn staged(stage: &Cell<&'static str>, f: impl FnOnce() -> serde_arrow::Result<Va
     o
 }
 
+/// The typed read of the bridge check (C04, the tie of the Lean type model to real derives): the REAL `T::deserialize` and
+/// dynde's `Target(target)` — `target` is the model's `toTarget` of the type's description — are driven over the same item
+/// deserializers of the real crate, each through the logging wrapper: the `deserialize_*` / `visit_*` / accessor call logs
+/// must be equal item by item (so `toTarget t` asks what the derived impl asks and is handed what it is handed), and what
+/// the visitors received is rendered (`dvals`) for the driver to compare with the reader model and with `dvalOf t (norm t v)`.
+fn typed_reads<T: ZooTy>(fields: &[Field], views: &'static [marrow::view::View<'static>], target: &Value) -> serde_arrow::Result<Value> {
+    use serde::de::DeserializeSeed;
+    let de = serde_arrow::Deserializer::from_marrow(fields, views)?;
+    let mut real: Vec<(Vec<String>, Option<String>)> = Vec::new();
+    for item in de.iter() {
+        real.push(dynde::with_log(|| T::deserialize(dynde::LogDe(item)).err().map(|e| e.to_string())));
+    }
+    let mut dvals = Vec::new();
+    let mut diff = Value::Null;
+    let mut n = 0usize;
+    for (i, item) in de.iter().enumerate() {
+        let (log, r) = dynde::with_log(|| dynde::Target(target).deserialize(dynde::LogDe(item)));
+        n += 1;
+        if diff.is_null() {
+            match real.get(i) {
+                None => diff = json!({"item": i, "what": "count"}),
+                Some((rlog, rerr)) => {
+                    // capacity hints are not part of a target: `Vec` / `HashMap` ask for them, `BTreeSet` / `BTreeMap` do not
+                    let hint = |l: &String| l == "seq.size_hint" || l == "map.size_hint";
+                    let rlog: Vec<String> = rlog.iter().filter(|l| !hint(l)).cloned().collect();
+                    let log: Vec<String> = log.iter().filter(|l| !hint(l)).cloned().collect();
+                    if rlog != log {
+                        let at = rlog.iter().zip(log.iter()).position(|(a, b)| a != b).unwrap_or(rlog.len().min(log.len()));
+                        diff = json!({"item": i, "what": "log", "at": at, "real": rlog.get(at), "target": log.get(at),
+                            "real_before": rlog[at.saturating_sub(3)..at].join(" ")});
+                    } else if rerr.is_some() != r.is_err() {
+                        diff = json!({"item": i, "what": "outcome", "real": rerr, "target": r.as_ref().err().map(|e| e.to_string())});
+                    }
+                }
+            }
+        }
+        dvals.push(match r {
+            Ok(v) => json!({ "ok": v }),
+            Err(e) => json!({"err": e.to_string()}),
+        });
+    }
+    if diff.is_null() && n != real.len() {
+        diff = json!({"item": n, "what": "count"});
+    }
+    Ok(json!({"n": n, "logs_equal": diff.is_null(), "diff": diff, "dvals": dvals}))
+}
+
 pub fn run_case<T: ZooTy>(input: &Value, entry: &ZooEntry) -> Value {
     let mut case = input.clone();
     {
@@ -219,6 +267,11 @@ pub fn run_case<T: ZooTy>(input: &Value, entry: &ZooEntry) -> Value {
     let keep: Vec<usize> = input["keep"].as_array().map(|a| a.iter().filter_map(|x| x.as_u64().map(|x| x as usize)).collect()).unwrap_or_default();
     let opts = || options_of(&input["options"]);
     let unordered = entry.flags.contains(&"unordered");
+    // the type in the Lean model's type language (zoo.rs, written by hand beside the type) and the model's `toTarget` of it
+    let desc = T::ty();
+    let target = to_target(&desc);
+    case["ty_desc"] = desc;
+    case["target"] = target.clone();
 
     // ---- values (twice: the zoo does not require Clone), their recorded call streams, harness fidelity
     let generated = std::panic::catch_unwind(|| (gen_values::<T>(seed, n, &keep), gen_values::<T>(seed, n, &keep)));
@@ -248,6 +301,7 @@ pub fn run_case<T: ZooTy>(input: &Value, entry: &ZooEntry) -> Value {
     case["aux"] = gen_schema::float_strings(&case["rows"]);
     case["normalised"] = json!(normalised);
     case["fidelity"] = json!(fidelity);
+    case["rows_expected"] = Value::Array(rows_expected.clone());
     let exp = Expect { values: &expected, rows: &rows_expected, unordered };
 
     // ---- schema
@@ -281,7 +335,11 @@ pub fn run_case<T: ZooTy>(input: &Value, entry: &ZooEntry) -> Value {
                     let views: Vec<marrow::view::View<'static>> = arrays.iter().map(|a| a.as_view()).collect();
                     with_static(views, |views| {
                         let got: Vec<T> = serde_arrow::from_marrow(&fields, views)?;
-                        Ok(exp.compare(&got))
+                        let mut o = exp.compare(&got);
+                        // what came back, as the real derived Serialize presents it (not comparable for hash-ordered content)
+                        o["got_rows"] = if unordered { Value::Null } else { json!(recorder::record_all(&got).ok()) };
+                        o["typed"] = outcome::run(|| typed_reads::<T>(&fields, views, &target));
+                        Ok(o)
                     })
                 })
             }),
